@@ -6,8 +6,9 @@
 //! implementation's formula at an `Fp` point, compared with the code-shaped model's.
 //! `draw` / `mv` lines run over `Fp` (uninterpreted `sqrt ln cos sin pi`), with a counting source.
 
-use crate::c08::{parse_elems, show_elems, steer_chol, symmetrise};
-use crate::exact::Fp;
+use crate::c08::{parse_elems, show_elems, steer_chol, symmetrise, ParseElem};
+use crate::exact::{Fp, Rat};
+use easy_ml::numeric::extra::{Real, RealRef};
 use crate::util::*;
 use easy_ml::distributions::{
     Gaussian, MultivariateGaussian, MultivariateGaussianError, MultivariateGaussianTensor,
@@ -40,6 +41,73 @@ impl Iterator for Counting {
 
 fn normal_pdf(mean: f64, variance: f64, x: f64) -> f64 {
     (1.0 / (2.0 * std::f64::consts::PI * variance).sqrt()) * (-(x - mean) * (x - mean) / (2.0 * variance)).exp()
+}
+
+/// one multivariate draw through the matrix or the tensor variant, with a counting source
+fn run_mv<T>(toks: &[&str]) -> String
+where
+    T: Real + ParseElem + std::fmt::Display,
+    for<'a> &'a T: RealRef<T>,
+{
+    let n: usize = toks[2].parse().expect("n");
+    let k: usize = toks[3].parse().expect("k");
+    let mean = parse_elems::<T>(opt_arg("mean", toks).expect("mean="));
+    let cov = parse_elems::<T>(opt_arg("cov", toks).expect("cov="));
+    let names = parse_names(opt_arg("names", toks).unwrap_or("samples,features"));
+    let via = opt_arg("via", toks).unwrap_or("tensor");
+    let mut source = CountingSource::new(parse_elems::<T>(opt_arg("src", toks).expect("src=")));
+    let r = catch(|| {
+        if via == "matrix" {
+            let g = MultivariateGaussian::new(
+                Matrix::column(mean.clone()),
+                Matrix::from_flat_row_major((n, n), cov.clone()),
+            );
+            g.draw(&mut source, k).map(|m| {
+                let (r, c) = m.size();
+                ([("samples", r), ("features", c)], m.row_major_iter().collect::<Vec<T>>())
+            })
+        } else {
+            let g = MultivariateGaussianTensor::new(
+                Tensor::from([("means", n)], mean.clone()),
+                Tensor::from([("u", n), ("v", n)], cov.clone()),
+            )
+            .expect("valid distribution");
+            g.draw(&mut source, k, names[0], names[1]).map(|t| (t.shape(), t.iter().collect::<Vec<T>>()))
+        }
+    });
+    match r {
+        Err(kind) => panic_str(kind),
+        Ok(None) => format!("none consumed={}", source.taken),
+        Ok(Some((shape, values))) => format!(
+            "some shape={} consumed={} values={}",
+            show_shape(&shape),
+            source.taken,
+            show_elems(&values)
+        ),
+    }
+}
+
+/// a uniform source of any element type that counts how many numbers were taken from it
+struct CountingSource<T> {
+    inner: std::vec::IntoIter<T>,
+    taken: usize,
+}
+
+impl<T> CountingSource<T> {
+    fn new(v: Vec<T>) -> CountingSource<T> {
+        CountingSource { inner: v.into_iter(), taken: 0 }
+    }
+}
+
+impl<T> Iterator for CountingSource<T> {
+    type Item = T;
+    fn next(&mut self) -> Option<T> {
+        let x = self.inner.next();
+        if x.is_some() {
+            self.taken += 1;
+        }
+        x
+    }
 }
 
 pub struct Runner;
@@ -93,42 +161,10 @@ impl Runner {
                 }
             }
             "mv" => {
-                let n: usize = toks[2].parse().expect("n");
-                let k: usize = toks[3].parse().expect("k");
-                let mean = parse_elems::<Fp>(opt_arg("mean", toks).expect("mean="));
-                let cov = parse_elems::<Fp>(opt_arg("cov", toks).expect("cov="));
-                let names = parse_names(opt_arg("names", toks).unwrap_or("samples,features"));
-                let via = opt_arg("via", toks).unwrap_or("tensor");
-                let mut source = Counting::new(parse_elems::<Fp>(opt_arg("src", toks).expect("src=")));
-                let r = catch(|| {
-                    if via == "matrix" {
-                        let g = MultivariateGaussian::new(
-                            Matrix::column(mean.clone()),
-                            Matrix::from_flat_row_major((n, n), cov.clone()),
-                        );
-                        g.draw(&mut source, k).map(|m| {
-                            let (r, c) = m.size();
-                            ([("samples", r), ("features", c)], m.row_major_iter().collect::<Vec<Fp>>())
-                        })
-                    } else {
-                        let g = MultivariateGaussianTensor::new(
-                            Tensor::from([("means", n)], mean.clone()),
-                            Tensor::from([("u", n), ("v", n)], cov.clone()),
-                        )
-                        .expect("valid distribution");
-                        g.draw(&mut source, k, names[0], names[1])
-                            .map(|t| (t.shape(), t.iter().collect::<Vec<Fp>>()))
-                    }
-                });
-                match r {
-                    Err(kind) => panic_str(kind),
-                    Ok(None) => format!("none consumed={}", source.taken),
-                    Ok(Some((shape, values))) => format!(
-                        "some shape={} consumed={} values={}",
-                        show_shape(&shape),
-                        source.taken,
-                        show_elems(&values)
-                    ),
+                if opt_arg("ty", toks) == Some("rat") {
+                    run_mv::<Rat>(toks)
+                } else {
+                    run_mv::<Fp>(toks)
                 }
             }
             "new" => {
@@ -192,6 +228,21 @@ fn covariance(g: &mut Gen, n: usize, want_pd: bool) -> Vec<Fp> {
             return a;
         }
     }
+}
+
+/// L·Lᵀ over the rationals
+fn rat_llt(n: usize, l: &[Rat]) -> Vec<Rat> {
+    let mut a = vec![Rat::int(0); n * n];
+    for i in 0..n {
+        for j in 0..n {
+            let mut s = Rat::int(0);
+            for k in 0..n {
+                s = s + l[i * n + k].clone() * l[j * n + k].clone();
+            }
+            a[i * n + j] = s;
+        }
+    }
+    a
 }
 
 pub fn gen(g: &mut Gen) {
@@ -294,6 +345,107 @@ pub fn gen(g: &mut Gen) {
                 n, show_elems(&mean), show_elems(&cov), show_elems(&src)
             ));
             g.count("mv.equal-names");
+        }
+    }
+
+    // ---- singular covariances: an exactly-zero pivot at every pivot position ------------------------
+    // (positive semidefinite but not positive definite: duplicated / perfectly correlated features,
+    // a zero-variance feature, the 1×1 covariance [0]); the draw must be absent, for the matrix
+    // variant and for the tensor variant with both orders of the dimension names.
+    let name_orders: [(&str, [&str; 2]); 3] = [
+        ("matrix", ["samples", "features"]),
+        ("tensor", ["samples", "features"]),
+        ("tensor", ["features", "samples"]),
+    ];
+    for n in 1..=5usize {
+        let need = 2 * ((n + 1) / 2);
+        for at in 0..n {
+            // over Fp: steer the pivot `at` of a random symmetric matrix to exactly zero (the pivots
+            // before it positive, so that the run reaches it)
+            for _ in 0..(if g.thorough { 4 } else { 2 }) {
+                let cov = loop {
+                    let mut a = fps(g, n * n);
+                    symmetrise(n, &mut a);
+                    let (_, s) = steer_chol::<Fp>(n, &a, Some(at));
+                    a[at * n + at] = s;
+                    if steer_chol::<Fp>(n, &a, None).0 == Some(at) {
+                        break a;
+                    }
+                };
+                let mean = fps(g, n);
+                let k = g.rng.range(1, 3);
+                let src = fps(g, k * need + 1);
+                for (via, names) in name_orders {
+                    g.op(format!(
+                        "@ mv {} {} mean={} cov={} src={} names={},{} via={}",
+                        n, k, show_elems(&mean), show_elems(&cov), show_elems(&src), names[0], names[1], via
+                    ));
+                }
+                g.count(&format!("mv.fp.zero-pivot-at={}", at));
+            }
+            // over Rat: L·Lᵀ for a lower-triangular rational L whose diagonal entry `at` is zero and
+            // whose other diagonal entries are positive: genuinely positive semidefinite and singular,
+            // every earlier pivot an exact square, pivot `at` exactly zero
+            for _ in 0..(if g.thorough { 4 } else { 2 }) {
+                let mut l = vec![Rat::int(0); n * n];
+                for i in 0..n {
+                    for j in 0..i {
+                        let d = *g.rng.pick(&[1i128, 1, 2, 3]);
+                        l[i * n + j] = Rat::new(g.rng.below(7) as i128 - 3, d);
+                    }
+                    if i != at {
+                        let d = *g.rng.pick(&[1i128, 1, 2]);
+                        l[i * n + i] = Rat::new(g.rng.below(4) as i128 + 1, d);
+                    }
+                }
+                let cov = rat_llt(n, &l);
+                let mean: Vec<Rat> = (0..n).map(|_| Rat::int(g.rng.below(9) as i64 - 4)).collect();
+                let k = g.rng.range(1, 3);
+                let src: Vec<Rat> = (0..k * need + 1).map(|_| Rat::new(g.rng.below(9) as i128 + 1, 10)).collect();
+                for (via, names) in name_orders {
+                    g.op(format!(
+                        "@ mv {} {} mean={} cov={} src={} names={},{} via={} ty=rat",
+                        n, k, show_elems(&mean), show_elems(&cov), show_elems(&src), names[0], names[1], via
+                    ));
+                }
+                g.count(&format!("mv.rat.singular-psd.zero-pivot-at={}", at));
+            }
+        }
+        // named singular covariances over Rat: all-ones (perfectly correlated features), a duplicated
+        // feature, a zero-variance feature, and indefinite / negative ones
+        let mut named: Vec<(&str, Vec<Rat>)> = vec![];
+        if n >= 2 {
+            named.push(("all-ones", vec![Rat::int(1); n * n]));
+        }
+        let mut zero_var = vec![Rat::int(0); n * n];
+        for i in 0..n {
+            zero_var[i * n + i] = if i == n - 1 { Rat::int(0) } else { Rat::int(4) };
+        }
+        named.push(("zero-variance-feature", zero_var));
+        if n >= 2 {
+            // features 0 and n-1 identical: covariance of (x0, …, x0)
+            let mut l = vec![Rat::int(0); n * n];
+            for i in 0..n - 1 {
+                l[i * n + i] = Rat::int(1 + i as i64);
+            }
+            l[(n - 1) * n] = Rat::int(1);
+            named.push(("duplicated-feature", rat_llt(n, &l)));
+            let mut neg = vec![Rat::int(0); n * n];
+            for i in 0..n {
+                neg[i * n + i] = if i == n - 1 { Rat::int(-1) } else { Rat::int(9) };
+            }
+            named.push(("negative-variance", neg));
+        }
+        for (label, cov) in named {
+            let mean: Vec<Rat> = (0..n).map(|i| Rat::int(i as i64)).collect();
+            let src: Vec<Rat> = (0..2 * need).map(|i| Rat::new(i as i128 + 1, 20)).collect();
+            for (via, names) in name_orders {
+                g.op(format!(
+                    "@ mv {} 2 mean={} cov={} src={} names={},{} via={} ty=rat",
+                    n, show_elems(&mean), show_elems(&cov), show_elems(&src), names[0], names[1], via
+                ));
+            }
+            g.count(&format!("mv.rat.{}", label));
         }
     }
 
